@@ -69,6 +69,7 @@ type Exec struct {
 	entryNext string
 	selfRef string
 	siteOrd map[ssa.Instruction]int
+	seenSites map[string]bool
 	entry0 *State
 	preEntry *State
 }
@@ -1129,6 +1130,7 @@ func (x *Exec) unop(st *State, t *ssa.UnOp) {
 		c := vc.name(t.Name(), vc.sortOf(t.Type()), v)
 		x.vals[t] = c
 		x.assumeLoaded(st, c, t.Type())
+		x.assumePreexisting(st, lv, c, t.Type())
 		if !(lv.kind == "field" && x.protectedHeaps()[vc.fieldHeap(lv.st, lv.field)]) {
 			x.assumeUnowned(st, c, t.Type())
 		}
@@ -1175,6 +1177,37 @@ func (x *Exec) assumeUnowned(st *State, c string, typ types.Type) {
 	}
 	x.vc.regComp("Owned", "(Array Int Bool)")
 	x.vc.assert(implies(st.reach, not(sel(x.vc.get(st, "Owned"), id))))
+}
+
+// assumePreexisting: a reference read from a heap that this activation has not written so far, at an object that
+// existed on entry, designates an object that existed on entry (heap closure of the entry state).
+func (x *Exec) assumePreexisting(st *State, lv *LValue, c string, typ types.Type) {
+	vc := x.vc
+	if x.entry0 == nil || x.entryNext == "" {
+		return
+	}
+	var heap, base string
+	switch lv.kind {
+	case "field":
+		heap, base = vc.fieldHeap(lv.st, lv.field), app("root", lv.base)
+	case "elem":
+		heap, base = vc.arrHeap(lv.typ), lv.arr
+	default:
+		return
+	}
+	if vc.get(st, heap) != vc.get(x.entry0, heap) {
+		return
+	}
+	var tgt string
+	switch typ.Underlying().(type) {
+	case *types.Pointer, *types.Map, *types.Chan:
+		tgt = app("root", c)
+	case *types.Slice:
+		tgt = app("s_arr", c)
+	default:
+		return
+	}
+	vc.assert(implies(app("<", base, x.entryNext), app("<", tgt, x.entryNext)))
 }
 
 // assumeLoaded: type invariant of values read from memory (cheap subset).
@@ -1398,11 +1431,20 @@ func (x *Exec) typeAssert(st *State, t *ssa.TypeAssert) {
 	if t.CommaOk {
 		okc := vc.name("taok", sBool, ok)
 		r := vc.name(t.Name(), vc.sortOf(at), ite(okc, res, vc.zero(at)))
+		if _, isSl := at.Underlying().(*types.Slice); isSl {
+			rc := vc.fresh("tasl", sSlice)
+			vc.assert(eq(rc, r))
+			x.assumeType(st, rc, at)
+			r = rc
+		}
 		x.tups[t] = []string{r, okc}
 		return
 	}
 	x.implicit(st, t, "typeassert", ok, "failed type assertion")
 	x.bind(t, res)
+	if _, isSl := at.Underlying().(*types.Slice); isSl {
+		x.assumeType(st, x.vals[t], at)
+	}
 	// pointer payloads are allocated refs
 	if _, isPtr := at.Underlying().(*types.Pointer); isPtr {
 		vc.assert(implies(st.reach, app("<", x.vals[t], vc.getNext(st))))
